@@ -11,7 +11,7 @@ class Malformed(Exception):
     pass
 
 
-def _bracket_end(p, i, pathname):
+def _bracket_end(p, i, pathname, win=False):
     """p[i] == '['; index just after the closing ']' of the bracket expression, or raise Malformed"""
     j = i + 1
     if j < len(p) and p[j] in '!^':
@@ -34,6 +34,8 @@ def _bracket_end(p, i, pathname):
                 raise Malformed
             if pathname and p[j + 1] == '/':
                 raise Malformed
+            if pathname and win and p[j + 1] == '\\':
+                raise Malformed          # under the Windows rules an escaped backslash is a separator too (C17)
             j += 2
             continue
         if c == '/' and pathname:
@@ -41,7 +43,7 @@ def _bracket_end(p, i, pathname):
         j += 1
 
 
-def _scan(p, i, ext, pathname, in_group):
+def _scan(p, i, ext, pathname, in_group, win=False):
     """scan from i; returns (split points at this level, index after) - for a group stops after its ')'"""
     points = []
     while i < len(p):
@@ -53,13 +55,13 @@ def _scan(p, i, ext, pathname, in_group):
             continue
         if c == '[':
             try:
-                i = _bracket_end(p, i, pathname)
+                i = _bracket_end(p, i, pathname, win)
             except Malformed:
                 i += 1          # an unterminated bracket expression is the literal character `[` (C10); scanning goes on behind it
             continue
         if ext and c in '?*+@!' and p[i + 1:i + 2] == '(':
             try:
-                _, i = _scan(p, i + 2, ext, pathname, True)
+                _, i = _scan(p, i + 2, ext, pathname, True, win)
             except Malformed:
                 if in_group:
                     raise       # the enclosing group cannot be terminated either
@@ -75,9 +77,9 @@ def _scan(p, i, ext, pathname, in_group):
     return points, i
 
 
-def split(p, ext, pathname=False):
+def split(p, ext, pathname=False, win=False):
     """pieces for a WELL-FORMED pattern (raises Malformed otherwise)"""
-    points, _ = _scan(p, 0, ext, pathname, False)
+    points, _ = _scan(p, 0, ext, pathname, False, win)
     out, start = [], 0
     for k in points:
         out.append(p[start:k])
